@@ -46,7 +46,10 @@ func (h Header) Validate(rsum, dsum, bsum []byte) error {
 
 // WriteTo writes the hash values to the given io.Writer.
 func (h Header) WriteTo(w io.Writer) (int64, error) {
-	p := append(append(h.RootSum, h.DataSum...), h.BodySum...)
+	// The sums may be slices of a buffer of the caller's: join them in a
+	// buffer of their own.
+	p := make([]byte, 0, len(h.RootSum)+len(h.DataSum)+len(h.BodySum))
+	p = append(append(append(p, h.RootSum...), h.DataSum...), h.BodySum...)
 	n, err := w.Write(p)
 	return int64(n), err
 }
